@@ -688,7 +688,8 @@ def unit_programs3(ctx):
     _run_program(ctx, cfg, PROG_LEAVES_3, 3, True)
 
 
-DIFFS = ["shift-one-cell", "shift-half-cell", "other-n", "other-cell", "nvdim-2-vs-3", "nvdim-3-vs-4", "nvdim-2-vs-4"]
+DIFFS = ["shift-one-cell", "shift-half-cell", "other-n", "other-cell", "nm-scale-single-cell-axis-vs-two-cells",
+         "nvdim-2-vs-3", "nvdim-3-vs-4", "nvdim-2-vs-4"]
 REFUSE_OPS = ["add", "sub", "mul", "div", "pow", "matmul", "and", "lshift", "dot", "cross", "angle", "npadd", "npmul",
               "nppow"]
 
@@ -719,6 +720,16 @@ def unit_refuse(ctx):
             n2 = list(n)
             n2[0] = n[0] + 1
             mesh2 = make_mesh(meshname, n=n2)
+        elif diff == "nm-scale-single-cell-axis-vs-two-cells":
+            # same nanometre-sized region, one mesh has ONE cell along the last axis, the other TWO: the arrays would
+            # broadcast and every cell size is below any absolute tolerance of order 1e-8
+            reg = df.Region(p1=tuple([0.0] * ndim), p2=tuple([4e-9, 2e-9, 6e-9, 8e-9][:ndim]))
+            na = [2] * ndim
+            nb = list(na)
+            nb[-1] = 1
+            mesh = df.Mesh(region=reg, n=na)
+            mesh2 = df.Mesh(region=reg, n=nb)
+            n = tuple(na)
         else:
             mesh2 = make_mesh(meshname, scale=2.0)
         if op in ("and", "cross") and k != 3:
@@ -751,9 +762,82 @@ def unit_refuse(ctx):
         ctx.fail(f"{op}/operand-modified", f"operands changed by a {'refused' if raised else 'accepted'} {op} ({diff})")
 
 
+def unit_reuse(ctx):
+    """Non-initial states: an expression is evaluated, the operand's VALUES are then changed through every public route
+    (in-place writes into field.array, the array setter, update_field_values), and the same expression is evaluated again
+    on the same objects.  The second result must be the expression on the values the operands hold now: equal to the
+    result for freshly built fields with the current values (differential oracle; what a single evaluation gives is
+    decided by the other units)."""
+    op = ctx.choose("op", UNARY + BINARY)
+    partner = ctx.choose("partner", ["field", "constant-vector", "number"]) if op in BINARY else None
+    k = ctx.choose("nvdim", [3, 1])
+    change = ctx.choose("change", ["array[cell] = v", "array[...] *= -3", "array = new", "update_field_values",
+                                   "partner.array[...] += 1"])
+    first = ctx.choose("first", ["same-expression", "norm+orientation", "nothing"])
+    mesh = make_mesh("3d-122")
+    n = tuple(int(i) for i in mesh.n)
+    if op in ("and", "cross") and k != 3:
+        raise engine.Skip()
+    if op in ("comp0", "compL", "restack") and k == 1:
+        raise engine.Skip()
+    if change.startswith("partner") and partner != "field":
+        raise engine.Skip()
+    a0 = tracer(n, k, ctx.seed) - 2.5
+    b0 = tracer(n, k, ctx.seed + 1) * 0.5 + 1.0
+    fa = df.Field(mesh, nvdim=k, value=a0.copy())
+    fb = df.Field(mesh, nvdim=k, value=b0.copy())
+    other = {"field": fb, "constant-vector": tuple(float(i + 1) for i in range(k)) if k > 1 else 2.0, "number": 2.0}.get(partner)
+    if op in ("matmul", "dot", "and", "cross", "angle", "lshift") and partner == "number":
+        raise engine.Skip()
+
+    def ev(x, y):
+        with np.errstate(all="ignore"):
+            return call(op, Val("A", "F", x), None if y is None else Val("B", "F" if isinstance(y, df.Field) else "N", y))
+
+    inst = ctx.key()
+    try:
+        if first == "same-expression":
+            ctx.step(1, f"first {op}")
+            ev(fa, other)
+        elif first == "norm+orientation":
+            fa.norm, fa.orientation
+            if isinstance(other, df.Field):
+                other.norm
+    except Exception:
+        raise engine.Skip()  # ill-typed combination: the other units judge what a single evaluation does
+    last = tuple(i - 1 for i in n)
+    if change == "array[cell] = v":
+        fa.array[last] = np.arange(7.0, 7.0 + k)
+    elif change == "array[...] *= -3":
+        fa.array[...] *= -3.0
+    elif change == "array = new":
+        fa.array = (a0[::-1] * 2.0 + 1.0).copy()
+    elif change == "update_field_values":
+        fa.update_field_values((a0[::-1] * 2.0 + 1.0).copy())
+    else:
+        other.array[...] += 1.0
+    ctx.step(2, f"{change}; second {op}; {op} on fresh fields")
+    fresh_a = df.Field(mesh, nvdim=k, value=np.array(fa.array))
+    fresh_o = df.Field(mesh, nvdim=k, value=np.array(other.array)) if isinstance(other, df.Field) else other
+    raised, ref = C.raises(ev, fresh_a, fresh_o)
+    if raised or not isinstance(ref, df.Field):
+        ctx.note("skip:expression-not-defined-for-these-operand-kinds")
+        raise engine.Skip()
+    again = ev(fa, other)
+    ctx.check()
+    ga, gr = np.asarray(again.array), np.asarray(ref.array)
+    ctx.observe(np.round(np.nan_to_num(np.abs(ga)), 9))
+    if ga.shape != gr.shape or not C.eq_nan(ga, gr):
+        ctx.fail(f"{op}/reuse/second-evaluation-differs-from-fresh-operands",
+                 f"after '{change}' (first use: {first}): {ga.ravel().tolist()[:6]} but fresh fields with the same values give "
+                 f"{gr.ravel().tolist()[:6]}", instance=inst)
+
+
+
 def units(tier):
     return [
         {"name": "pairs", "fn": unit_pairs, "bound": None},
         {"name": "programs", "fn": unit_programs, "bound": None},
         {"name": "refuse", "fn": unit_refuse, "bound": None},
+        {"name": "reuse", "fn": unit_reuse, "bound": None},
     ] + ([{"name": "programs3", "fn": unit_programs3, "bound": None}] if tier == "thorough" else [])
